@@ -33,6 +33,9 @@ func (p *Prog) indexWriters() {
 				if !ok {
 					continue
 				}
+				if !Feasible(fa) {
+					continue // failpoint-only code
+				}
 				f := FieldOfAddr(fa)
 				if f == nil {
 					continue
